@@ -1,8 +1,9 @@
 from sqlfluff.core.parser import BaseSegment
 
-from sqllineage.core.holders import StatementLineageHolder
+from sqllineage.core.holders import StatementLineageHolder, SubQueryLineageHolder
 from sqllineage.core.models import Path
 from sqllineage.core.parser.sqlfluff.extractors.base import BaseExtractor
+from sqllineage.core.parser.sqlfluff.extractors.select import SelectExtractor
 from sqllineage.core.parser.sqlfluff.utils import (
     find_from_expression_element,
     list_child_segments,
@@ -23,10 +24,21 @@ class CopyExtractor(BaseExtractor):
 
     def extract(
         self, statement: BaseSegment, context: AnalyzerContext
-    ) -> StatementLineageHolder:
+    ) -> StatementLineageHolder | SubQueryLineageHolder:
+        segments = list_child_segments(statement)
+        direction = next(
+            (
+                segment.raw_upper
+                for segment in segments
+                if segment.type == "keyword" and segment.raw_upper in ("FROM", "TO")
+            ),
+            "FROM",
+        )
+        if direction == "TO":
+            return self._extract_copy_to(segments, context)
         holder = StatementLineageHolder()
         src_flag = tgt_flag = False
-        for segment in list_child_segments(statement):
+        for segment in segments:
             if segment.type == "from_clause":
                 if from_expression_element := find_from_expression_element(segment):
                     for table_expression in from_expression_element.get_children(
@@ -53,4 +65,47 @@ class CopyExtractor(BaseExtractor):
                     holder.add_read(path)
                 src_flag = False
 
+        return holder
+
+    def _extract_copy_to(
+        self, segments: list[BaseSegment], context: AnalyzerContext
+    ) -> SubQueryLineageHolder:
+        """
+        COPY { table | ( query ) } TO 'file': the table or the query is read, the file (if any) is written
+        """
+        from .cte import CteExtractor
+
+        holder = self._init_holder(context)
+        for idx, segment in enumerate(segments):
+            if segment.type == "keyword" and segment.raw_upper == "TO":
+                if idx + 1 < len(segments) and segments[idx + 1].type == "literal":
+                    holder.add_write(
+                        Path(escape_identifier_name(segments[idx + 1].raw))
+                    )
+                break
+        for segment in segments:
+            if segment.type == "keyword" and segment.raw_upper == "TO":
+                break
+            if table := self.find_table(segment):
+                holder.add_read(table)
+            elif segment.type == "bracketed":
+                for query in segment.recursive_crawl(
+                    "with_compound_statement",
+                    "select_statement",
+                    "set_expression",
+                    recurse_into=False,
+                ):
+                    holder |= self.delegate_to(
+                        (
+                            CteExtractor
+                            if query.type == "with_compound_statement"
+                            else SelectExtractor
+                        ),
+                        query,
+                        AnalyzerContext(
+                            cte=holder.cte,
+                            write=holder.write,
+                            write_columns=holder.write_columns,
+                        ),
+                    )
         return holder
